@@ -8,6 +8,7 @@ import OxyModel.Model.CBreaker
     at <ns> | adv <ns>            -> ok
     start <id>                    -> pass <state> | fallback <state>
     finish <id> <code> [q=v,v,…]  -> done <code> <state>        (q: oracle LatencyAtQuantileMS values)
+    burst <n> <step_ns>           -> burst <run-length outcomes> <state>   (n × (arrive; clock += step))
     state                         -> standby | tripped until=<ns> | recovering until=<ns>
     effects                       -> effects tripped=<n> standby=<n>
 -/
@@ -92,6 +93,15 @@ def init (f : List String) : Option St × String :=
       | none => (none, "err")
     | _ => (none, "bad-cfg")
 
+/-- `n` arrivals, the clock advancing `stp` after each; run-length encoding of the answers -/
+def burst (c : Cfg) : Nat → Nat → Brk → Nat → Char → Nat → String → Brk × Nat × String
+  | 0, _, b, now, last, run, acc => (b, now, if run > 0 then acc ++ last.toString ++ toString run else acc)
+  | n + 1, stp, b, now, last, run, acc =>
+    let r := arrive c b (abs now)
+    let ch := match r.1 with | .pass => 'p' | .fallback => 'f'
+    if ch == last then burst c n stp r.2 (now + stp) last (run + 1) acc
+    else burst c n stp r.2 (now + stp) ch 1 (if run > 0 then acc ++ last.toString ++ toString run else acc)
+
 def step (s : St) : List String → St × String
   | ["at", t] =>
     match t.toNat? with
@@ -114,6 +124,12 @@ def step (s : St) : List String → St × String
       if !s.inflight.contains id then (s, "bad-op") else
       let r := complete s.cfg s.brk (abs s.now) code (oracle s.cfg rest)
       ({ s with brk := r.1, inflight := s.inflight.erase id }, "done " ++ toString code ++ " " ++ stateStr r.1)
+  | ["burst", n, d] =>
+    match n.toNat?, d.toNat? with
+    | some n, some d =>
+      let r := burst s.cfg n d s.brk s.now ' ' 0 ""
+      ({ s with brk := r.1, now := r.2.1 }, "burst " ++ r.2.2 ++ " " ++ stateStr r.1)
+    | _, _ => (s, "bad-op")
   | ["state"] => (s, stateStr s.brk)
   | ["effects"] => (s, "effects tripped=" ++ toString s.brk.tripped ++ " standby=" ++ toString s.brk.standbys)
   | _ => (s, "bad-op")
